@@ -79,13 +79,55 @@ def _returns_in_loops(fn):
     return False
 
 
+def _forwards_only(fn):
+    """*args / **kwargs of the helper are used for nothing but being passed on: `g(*args, **kwargs)`."""
+    va = fn.args.vararg.arg if fn.args.vararg else None
+    kw = fn.args.kwarg.arg if fn.args.kwarg else None
+    ok_nodes = set()
+    for x in ast.walk(fn):
+        if isinstance(x, ast.Call):
+            for a in x.args:
+                if isinstance(a, ast.Starred) and isinstance(a.value, ast.Name) and a.value.id == va:
+                    ok_nodes.add(id(a.value))
+            for k in x.keywords:
+                if k.arg is None and isinstance(k.value, ast.Name) and k.value.id == kw:
+                    ok_nodes.add(id(k.value))
+    for x in ast.walk(fn):
+        if isinstance(x, ast.Name) and x.id in (va, kw) and id(x) not in ok_nodes:
+            return False
+    return True
+
+
+class _Forward(ast.NodeTransformer):
+    """g(*args, **kwargs) with the call site's extra arguments written out."""
+    def __init__(self, va, extra, kw, extrakw):
+        self.va, self.extra, self.kw, self.extrakw = va, extra, kw, extrakw
+
+    def visit_Call(self, node):
+        self.generic_visit(node)
+        args = []
+        for a in node.args:
+            if isinstance(a, ast.Starred) and isinstance(a.value, ast.Name) and a.value.id == self.va:
+                args.extend(copy.deepcopy(self.extra))
+            else:
+                args.append(a)
+        kws = []
+        for k in node.keywords:
+            if k.arg is None and isinstance(k.value, ast.Name) and k.value.id == self.kw:
+                kws.extend(copy.deepcopy(self.extrakw))
+            else:
+                kws.append(k)
+        node.args, node.keywords = args, kws
+        return node
+
+
 def _eligible(fn):
     if not fn.name.startswith('_') or (fn.name.startswith('__') and fn.name.endswith('__')):
         return False
     if _kind(fn) is None:
         return False
     a = fn.args
-    if a.vararg or a.kwarg:
+    if (a.vararg or a.kwarg) and not _forwards_only(fn):
         return False
     inner = [x for x in ast.walk(fn) if x is not fn]
     if any(isinstance(x, (ast.FunctionDef, ast.AsyncFunctionDef, ast.Lambda, ast.Yield, ast.YieldFrom, ast.Await, ast.Global, ast.Nonlocal,
@@ -169,6 +211,8 @@ def _pure(e):
     if isinstance(e, (ast.Name, ast.Constant)):
         return True
     if isinstance(e, ast.Attribute):
+        if isinstance(e.value, ast.Call) and isinstance(e.value.func, ast.Name) and e.value.func.id == 'super' and not e.value.args and not e.value.keywords:
+            return True           # super().method: a bound-method lookup
         return _pure(e.value)
     if isinstance(e, ast.UnaryOp) and isinstance(e.operand, ast.Constant):
         return True
@@ -186,7 +230,11 @@ class _Inliner:
     def candidates(self):
         out = {}
         present = {key for key, *_ in _functions(self.mods)}
-        vanished = {d for k, d in self.baseline.items() if k not in present and d}
+        def nested(k):
+            parts = k.split('#')[0].split('.')
+            return any('.'.join(parts[:i]) in self.baseline for i in range(1, len(parts)))
+        # (closures are not listed by _functions: they have not vanished, they are just not top-level)
+        vanished = {d for k, d in self.baseline.items() if k not in present and d and not nested(k)}
         for key, mod, cls, fn, container in _functions(self.mods):
             if key in self.baseline:
                 continue
@@ -296,16 +344,33 @@ class _Inliner:
             else:
                 r = ast.unparse(recv)
                 bind[first] = recv if (r == 'cls' or r[:1].isupper()) else ast.Attribute(value=recv, attr='__class__', ctx=ast.Load())
-        if any(isinstance(a, ast.Starred) for a in call.args) or any(k.arg is None for k in call.keywords):
+        if any(isinstance(a, ast.Starred) for a in call.args):
             return None
+        if any(k.arg is None for k in call.keywords) and not (fn.args.kwarg and all(_pure(k.value) for k in call.keywords if k.arg is None)):
+            return None
+        extra, extrakw = [], []
+        npos = len([a for a in fn.args.posonlyargs + fn.args.args]) - (len(params) - len(pos))
         if len(call.args) > len(pos):
-            return None
+            if not fn.args.vararg:
+                return None
+            extra = list(call.args[len(pos):])
         for p, a in zip(pos, call.args):
             bind[p] = a
+        posonly = {a.arg for a in fn.args.posonlyargs}
         for k in call.keywords:
-            if k.arg not in pos and k.arg not in kwonly or k.arg in bind:
+            if k.arg is None:
+                extrakw.append(k)
+                continue
+            if (k.arg not in pos and k.arg not in kwonly) or k.arg in posonly:
+                if fn.args.kwarg:
+                    extrakw.append(k)
+                    continue
+                return None
+            if k.arg in bind:
                 return None
             bind[k.arg] = k.value
+        if any(not _pure(a) for a in extra) or any(not _pure(k.value) for k in extrakw):
+            return None
         for p in pos + kwonly:
             if p not in bind:
                 d = defaults.get(p, kwdefaults.get(p))
@@ -340,6 +405,9 @@ class _Inliner:
         body = [copy.deepcopy(x) for x in fn.body]
         if body and isinstance(body[0], ast.Expr) and isinstance(body[0].value, ast.Constant) and isinstance(body[0].value.value, str):
             body = body[1:]
+        if fn.args.vararg or fn.args.kwarg:
+            fw = _Forward(fn.args.vararg.arg if fn.args.vararg else None, extra, fn.args.kwarg.arg if fn.args.kwarg else None, extrakw)
+            body = [fw.visit(x) for x in body]
         sub = _Subst(mapping)
         body = [sub.visit(x) for x in body]
         body = _prune(body)            # a constant passed for a flag parameter decides the helper's branches
@@ -358,7 +426,7 @@ class _Inliner:
                 v = v if v is not None else ast.Constant(value=None)
                 t = copy.copy(s)
                 t.value = v
-                if isinstance(t, ast.Expr) and isinstance(v, ast.Constant):
+                if isinstance(t, ast.Expr) and isinstance(v, (ast.Constant, ast.Name)):
                     return []
                 if isinstance(t, ast.Assign) and len(t.targets) == 1 and isinstance(t.targets[0], ast.Name) and isinstance(v, ast.Name) \
                         and v.id == t.targets[0].id:
@@ -430,6 +498,14 @@ class _Inliner:
                     if ch:
                         setattr(s, fld, new)
                         changed = True
+            if isinstance(s, ast.FunctionDef) and caller is not None:
+                # a closure defined in the function: its body is rewritten like any other (free variables keep their meaning)
+                new, ch = self._process_list(s.body, cands, s)
+                if ch:
+                    s.body = new
+                    changed = True
+                out.append(s)
+                continue
             if isinstance(s, ast.Try):
                 for h in s.handlers:
                     new, ch = self._process_list(h.body, cands, caller)
@@ -695,6 +771,214 @@ class _OperatorCalls(ast.NodeTransformer):
         return node
 
 
+# ---------------------------------------------------------------------------------------------- tidy-up after integration
+def _noneness(v):
+    """True: the expression is None; False: it certainly is not (a tuple/list/dict/number/string display); None: unknown."""
+    if isinstance(v, ast.Constant):
+        return v.value is None
+    if isinstance(v, (ast.Tuple, ast.List, ast.Dict, ast.Set, ast.JoinedStr)):
+        return False
+    return None
+
+
+def _last_binding(stmts, name):
+    """The value `name` certainly holds at the end of the statement list: the list ends in `name = <value>`."""
+    if stmts and isinstance(stmts[-1], ast.Assign) and len(stmts[-1].targets) == 1 and isinstance(stmts[-1].targets[0], ast.Name) \
+            and stmts[-1].targets[0].id == name:
+        return stmts[-1].value
+    return None
+
+
+def _sentinel_test(t):
+    """(name, True if the test holds when the name is None) for `x is None` / `x is not None` / `not x` / `x`."""
+    if isinstance(t, ast.Compare) and len(t.ops) == 1 and isinstance(t.left, ast.Name) and isinstance(t.comparators[0], ast.Constant) \
+            and t.comparators[0].value is None and isinstance(t.ops[0], (ast.Is, ast.IsNot, ast.Eq, ast.NotEq)):
+        return t.left.id, isinstance(t.ops[0], (ast.Is, ast.Eq))
+    return None
+
+
+def _thread(stmts):
+    """Jump threading for the optional-result idiom an extracted helper leaves behind:
+
+        if c: ...; r = None          if c: ...; r = None; <A>
+        else: ...; r = (a, b)   =>   else: ...; r = (a, b); <B, rest>
+        if r is None: <A>
+        <rest>
+
+    Both branches of the first `if` end by binding r to something whose None-ness is evident, so the test that follows is
+    decided separately in each branch."""
+    out = list(stmts)
+    i = 0
+    changed = False
+    while i < len(out) - 1:
+        s, nxt = out[i], out[i + 1]
+        if isinstance(s, ast.If) and s.orelse and isinstance(nxt, ast.If):
+            st = _sentinel_test(nxt.test)
+            if st is not None:
+                name, when_none = st
+                vb, ve = _last_binding(s.body, name), _last_binding(s.orelse, name)
+                nb, ne = (_noneness(vb) if vb is not None else None), (_noneness(ve) if ve is not None else None)
+                if nb is not None and ne is not None:
+                    rest = out[i + 2:]
+
+                    def cont(is_none):
+                        taken = nxt.body if is_none == when_none else nxt.orelse
+                        return copy.deepcopy(list(taken)) + ([] if _always_exits(taken) else copy.deepcopy(rest))
+                    s.body = list(s.body) + cont(nb)
+                    s.orelse = list(s.orelse) + cont(ne)
+                    out = out[:i + 1]
+                    changed = True
+                    break
+        i += 1
+    for s in out:
+        for fld in ('body', 'orelse', 'finalbody'):
+            sub = getattr(s, fld, None)
+            if isinstance(sub, list) and sub and isinstance(sub[0], ast.stmt) and not isinstance(s, (ast.FunctionDef, ast.ClassDef)):
+                new, ch = _thread(sub)
+                if ch:
+                    setattr(s, fld, new)
+                    changed = True
+    return out, changed
+
+
+def _unnest(stmts):
+    """`if c: <exits> else: <rest>` -> `if c: <exits>` followed by <rest> (same paths, the usual guard shape)."""
+    out = []
+    changed = False
+    for s in stmts:
+        for fld in ('body', 'orelse', 'finalbody'):
+            sub = getattr(s, fld, None)
+            if isinstance(sub, list) and sub and isinstance(sub[0], ast.stmt) and not isinstance(s, (ast.FunctionDef, ast.ClassDef)):
+                new, ch = _unnest(sub)
+                if ch:
+                    setattr(s, fld, new)
+                    changed = True
+        if isinstance(s, ast.If) and s.orelse and _always_exits(s.body) and s is stmts[-1]:
+            tail = s.orelse
+            s.orelse = []
+            out.append(s)
+            out.extend(tail)
+            changed = True
+            continue
+        out.append(s)
+    return out, changed
+
+
+def _stores(fn, name):
+    n = 0
+    for x in ast.walk(fn):
+        if isinstance(x, ast.Name) and x.id == name and isinstance(x.ctx, (ast.Store, ast.Del)):
+            n += 1
+        if isinstance(x, ast.arg) and x.arg == name:
+            n += 1
+    return n
+
+
+def _copyprop(fn):
+    """`u, v = r` right after `r = (a, b)` becomes `u = a; v = b`; then a single-assignment local that merely renames another
+    variable (`u = a`, a not re-bound afterwards, no closure) is replaced by that variable."""
+    changed = False
+
+    def lists(node):
+        for fld in ('body', 'orelse', 'finalbody'):
+            sub = getattr(node, fld, None)
+            if isinstance(sub, list) and sub and isinstance(sub[0], ast.stmt):
+                yield node, fld, sub
+                for c in sub:
+                    if not isinstance(c, (ast.FunctionDef, ast.ClassDef)):
+                        yield from lists(c)
+        for h in getattr(node, 'handlers', []) or []:
+            yield from lists(h)
+    # tuple unpacking of a tuple just bound
+    for node, fld, sub in list(lists(fn)):
+        for i in range(len(sub) - 1):
+            a, b = sub[i], sub[i + 1]
+            if isinstance(a, ast.Assign) and len(a.targets) == 1 and isinstance(a.targets[0], ast.Name) and isinstance(a.value, ast.Tuple) \
+                    and isinstance(b, ast.Assign) and len(b.targets) == 1 and isinstance(b.targets[0], ast.Tuple) and isinstance(b.value, ast.Name) \
+                    and b.value.id == a.targets[0].id and len(b.targets[0].elts) == len(a.value.elts) \
+                    and all(isinstance(t, ast.Name) for t in b.targets[0].elts) and all(_pure(e) for e in a.value.elts):
+                r = a.targets[0].id
+                # r is read nowhere else
+                reads = [x for x in ast.walk(fn) if isinstance(x, ast.Name) and x.id == r and isinstance(x.ctx, ast.Load)]
+                if sum(1 for x in reads) - sum(1 for n2, f2, s2 in lists(fn) for j in range(len(s2) - 1)
+                                                if isinstance(s2[j + 1], ast.Assign) and isinstance(s2[j + 1].value, ast.Name) and s2[j + 1].value.id == r
+                                                and isinstance(s2[j + 1].targets[0], ast.Tuple)) > 0:
+                    continue
+                tnames = [t.id for t in b.targets[0].elts]
+                srcs = {y.id for e in a.value.elts for y in ast.walk(e) if isinstance(y, ast.Name)}
+                if set(tnames) & srcs or len(set(tnames)) != len(tnames):
+                    continue
+                new = [ast.Assign(targets=[ast.Name(id=t, ctx=ast.Store())], value=e) for t, e in zip(tnames, a.value.elts)]
+                sub[i:i + 2] = new
+                changed = True
+                break
+    # renaming locals
+    for node, fld, sub in list(lists(fn)):
+        i = 0
+        while i < len(sub):
+            a = sub[i]
+            if isinstance(a, ast.Assign) and len(a.targets) == 1 and isinstance(a.targets[0], ast.Name) and isinstance(a.value, ast.Name) \
+                    and a.targets[0].id != a.value.id and _stores(fn, a.targets[0].id) == 1:
+                u, v = a.targets[0].id, a.value.id
+                later = sub[i + 1:]
+                rebound = any(isinstance(x, ast.Name) and x.id == v and isinstance(x.ctx, (ast.Store, ast.Del)) for st in later for x in ast.walk(st))
+                nested = any(isinstance(x, (ast.FunctionDef, ast.Lambda)) and x is not fn for x in ast.walk(fn))
+                # every read of u is in the statements that follow the binding in this very block
+                reads_all = sum(1 for x in ast.walk(fn) if isinstance(x, ast.Name) and x.id == u and isinstance(x.ctx, ast.Load))
+                reads_later = sum(1 for st in later for x in ast.walk(st) if isinstance(x, ast.Name) and x.id == u and isinstance(x.ctx, ast.Load))
+                if not rebound and not nested and reads_all == reads_later:
+                    sb = _Subst({u: ast.Name(id=v, ctx=ast.Load())})
+                    sub[i + 1:] = [sb.visit(st) for st in later]
+                    del sub[i]
+                    changed = True
+                    continue
+            i += 1
+    return changed
+
+
+def _dead_stores(fn):
+    """`r = <no side effect>` where r is read nowhere in the function: dropped."""
+    loads = {x.id for x in ast.walk(fn) if isinstance(x, ast.Name) and isinstance(x.ctx, (ast.Load, ast.Del))}
+    if any(isinstance(x, (ast.Global, ast.Nonlocal)) for x in ast.walk(fn)):
+        return False
+    changed = False
+
+    def effect_free(v):
+        return _pure(v) or (isinstance(v, (ast.Tuple, ast.List)) and all(effect_free(e) for e in v.elts))
+
+    def scan(stmts):
+        nonlocal changed
+        out = []
+        for st in stmts:
+            if isinstance(st, ast.Assign) and len(st.targets) == 1 and isinstance(st.targets[0], ast.Name) and st.targets[0].id not in loads \
+                    and effect_free(st.value):
+                changed = True
+                continue
+            for fld in ('body', 'orelse', 'finalbody'):
+                sub = getattr(st, fld, None)
+                if isinstance(sub, list) and sub and isinstance(sub[0], ast.stmt) and not isinstance(st, (ast.FunctionDef, ast.ClassDef)):
+                    setattr(st, fld, scan(sub) or ([ast.Pass()] if fld == 'body' else []))
+            for h in getattr(st, 'handlers', []) or []:
+                h.body = scan(h.body) or [ast.Pass()]
+            out.append(st)
+        return out
+    fn.body = scan(fn.body) or [ast.Pass()]
+    return changed
+
+
+def tidy(fn):
+    """Post-integration normal form of one rewritten function."""
+    for _ in range(6):
+        _dead_stores(fn)
+        body, c1 = _thread(fn.body)
+        fn.body = body
+        body, c2 = _unnest(fn.body)
+        fn.body = body
+        c3 = _copyprop(fn)
+        if not (c1 or c2 or c3):
+            break
+
+
 def integrate(mods, src):
     """Inline new helpers in place.  Returns {module: {function name: original def line}} for the modules that changed
     (their trees are re-parsed from the rewritten text, so line numbers inside them are synthetic)."""
@@ -720,6 +1004,9 @@ def integrate(mods, src):
                     if isinstance(k, ast.FunctionDef):
                         lines.setdefault(f'{n.name}.{k.name}', k.lineno)
         tree = _OperatorCalls().visit(mods[mod])
+        for key, m2, cls, fn, container in list(_functions({mod: tree})):
+            if key in touched[mod]:
+                tidy(fn)
         ast.fix_missing_locations(tree)
         mods[mod] = ast.parse(ast.unparse(tree))
         out[mod] = lines
